@@ -147,7 +147,8 @@ class Prop(BaseProp):
             if not mpmath.isfinite(got):
                 return Violation('counterexample', '%s: part %s is %s, mathematical value %s' % (desc, S, got, mpmath.nstr(want, 12)), case=case,
                                  expected=mpmath.nstr(want, 20), obtained=str(got), detail={'block': str(S)})
-            tol = 64 * U[w] * scale[S] + fmin
+            # atan2 is a composition (quotient, then atan): its scale only accounts for the outer step, so the constant is larger
+            tol = (1024 if case.op == 'atan2' else 64) * U[w] * scale[S] + fmin
             if case.op == 'atan2' and S == () and Y0_NEGX(case):
                 got, want = abs(got), abs(want)      # on the branch cut the sign of pi follows the sign of the zero
             if abs(got - want) > tol:
